@@ -48,6 +48,7 @@ type C18Expect struct {
 	Adversary bool              `json:"adversary,omitempty"`
 	LinkOf    map[string]string `json:"link_of,omitempty"` // name -> name of the template its file is a symlink to
 	Spelling  string            `json:"spelling,omitempty"`
+	Expect    map[string]string `json:"expect,omitempty"` // name -> exact rendering (pages that use a layout)
 	// fault
 	Fault      string   `json:"fault,omitempty"`
 	FaultPath  string   `json:"fault_path,omitempty"`
@@ -188,11 +189,27 @@ func genC18Registry(r *Rng) *Scenario {
 		ex.Plain["shared/shell"] = root + "/shared/shell" + ext
 	}
 	// a layout and a page using it
+	ex.Expect = map[string]string{}
 	if r.Chance(60) {
 		add("layouts/main"+ext, `<html>@reserve("content")</html>`, "layout")
 		add("withlayout"+ext, `@use("layouts/main")`+"\n"+`@insert("content")<b>WL {{ n1 }}</b>@end`, "page")
 		ex.Names = append(ex.Names, "withlayout")
 		ex.NotNames = append(ex.NotNames, "layouts/main")
+		ex.Expect["withlayout"] = "<html><b>WL 7</b></html>"
+	}
+	// a layout and a component whose own NAMES end in the extension (files with the extension
+	// twice), next to decoys that carry it once: references resolve to name + extension, always
+	if r.Chance(35) {
+		add("dbl/base"+ext+ext, `<main data-dbl>@reserve("content")</main>`, "layout")
+		add("dbl/base"+ext, `<p>DECOY-LAYOUT {{ n1 }}</p>`, "page")
+		add("dbl/chip"+ext+ext, `<i>CHIP {{ v }}</i>`, "component")
+		add("dbl/chip"+ext, `<p>DECOY-CHIP {{ n1 }}</p>`, "page")
+		add("dbluser"+ext, `@use("dbl/base`+ext+`")`+"\n"+`@insert("content")<b>DU {{ n1 }}</b>@component("dbl/chip`+ext+`", {v: n1})@end`, "page")
+		ex.Names = append(ex.Names, "dbluser", "dbl/base", "dbl/chip", "dbl/chip"+ext)
+		ex.Plain["dbl/base"] = root + "/dbl/base" + ext
+		ex.Plain["dbl/chip"] = root + "/dbl/chip" + ext
+		ex.NotNames = append(ex.NotNames, "dbl/base"+ext)
+		ex.Expect["dbluser"] = "<main data-dbl><b>DU 7</b><i>CHIP 7</i></main>"
 	}
 	// adversarial names
 	type adv struct{ rel, why string }
@@ -306,6 +323,13 @@ func checkC18Registry(sc *Scenario, acc *Acc) *c18Fail {
 				return &c18Fail{sig: "registry:wrong-file-under-name:" + ex.Spelling, clause: "a registered name renders something else than the file at that relative path",
 					detail: fmt.Sprintf("name %q", name), exp: e.Short(), got: o.Short()}
 			}
+		}
+	}
+	for _, name := range sortedKeys(ex.Expect) {
+		o := w.RunOp(Op{Kind: "string", Name: name, Data: c18Data}, Budget)
+		if o.Kind != "ok" || o.Out != ex.Expect[name] {
+			return &c18Fail{sig: "registry:wrong-rendering-of-page-with-layout:" + ex.Spelling, clause: "a page that uses a layout / a component by name renders something else than that layout and component (the reference resolved to another file)",
+				detail: fmt.Sprintf("name %q", name), exp: fmt.Sprintf("%q", ex.Expect[name]), got: o.Short()}
 		}
 	}
 	for _, name := range ex.NotNames {
